@@ -135,7 +135,11 @@ func c06Config(c C06Case) *eval.Config {
 	}
 	for i, n := range soupNames {
 		if !c.Undef || i%2 == 0 {
-			cc.VariableKeyMap[n] = eval.VariableKey(i*37 - 5)
+			if c.Mask%2 == 0 {
+				cc.VariableKeyMap[n] = eval.VariableKey(i*37 - 5) // a negative key and keys beyond 255
+			} else {
+				cc.VariableKeyMap[n] = eval.VariableKey(i*17 - 5) // a negative key, the largest below 256
+			}
 		}
 	}
 	cc.ConstantMap["Ki"] = int64(4)
@@ -155,6 +159,9 @@ func c06Config(c C06Case) *eval.Config {
 	if c.NilMaps {
 		// the way the repository's own tests build configs: a literal with only what is needed
 		lit := &eval.Config{VariableKeyMap: cc.VariableKeyMap, CompileOptions: cc.CompileOptions}
+		if c.Mask == 15 {
+			lit.CompileOptions = nil // everything at its default: no options map at all
+		}
 		if c.Mask%2 == 0 {
 			lit.OperatorMap = cc.OperatorMap
 		}
@@ -205,7 +212,11 @@ func loopPositionsIncrease(evs []eval.Event) (bool, string) {
 }
 
 // exercise runs every evaluation entry point of a compiled program under hostile bindings.
-func exerciseC06(c C06Case, e *eval.Expr, r *Rec) *Violation {
+func exerciseC06(c C06Case, e *eval.Expr, r *Rec, cfgs ...*eval.Config) *Violation {
+	cc := c06Config(c)
+	if len(cfgs) > 0 {
+		cc = cfgs[0]
+	}
 	where := func() string {
 		return fmt.Sprintf("src=%q infix=%v config=%s undef=%v events=%d", clip(c.Src, 400), c.Infix, maskName(c.Mask), c.Undef, c.Events)
 	}
@@ -222,6 +233,40 @@ func exerciseC06(c C06Case, e *eval.Expr, r *Rec) *Violation {
 	binds := c.Binds
 	if len(binds) == 0 {
 		binds = []int{0}
+	}
+	// ... and through a context the library builds itself from hostile values (whatever fetcher the key
+	// layout selects; some names bound, some not)
+	for _, seed := range binds {
+		vals := map[string]interface{}{}
+		hf := hostileFetcher{seed: seed, avail: -1}
+		for i, n := range soupNames {
+			if (i+seed)%3 != 0 {
+				vals[n] = hf.val(n)
+			}
+		}
+		var ctx *eval.Ctx
+		if o := Safe(func() (eval.Value, error) { ctx = eval.NewCtxFromVars(cc, vals); return nil, nil }); o.Panic != nil {
+			return Violf("C06: NewCtxFromVars panics (binding seed %d, key map %v)\n%s\n%v", seed, cc.VariableKeyMap, where(), o)
+		}
+		for _, try := range []bool{false, true} {
+			var o Outcome
+			run := func() {
+				o = Safe(func() (eval.Value, error) {
+					if try {
+						return e.TryEval(ctx)
+					}
+					return e.Eval(ctx)
+				})
+			}
+			if c.Events > 0 {
+				collectEvents(e, run) // (an event-mode program needs its consumer)
+			} else {
+				run()
+			}
+			if o.Panic != nil {
+				return Violf("C06: evaluation over NewCtxFromVars panics (try=%v, binding seed %d, %T, key map %v)\n%s\n%v", try, seed, ctx.VariableFetcher, cc.VariableKeyMap, where(), o)
+			}
+		}
 	}
 	for _, seed := range binds {
 		for _, try := range []bool{false, true} {
@@ -290,7 +335,7 @@ func checkC06(c C06Case, r *Rec) *Violation {
 	}
 	if e != nil {
 		r.Class("compiled")
-		if v := exerciseC06(c, e, r); v != nil {
+		if v := exerciseC06(c, e, r, cc); v != nil {
 			return v
 		}
 	} else {
@@ -470,6 +515,18 @@ func sweepC06(tier string, shard, shards int, emit func(C06Case)) {
 		for _, infix := range []bool{false, true} {
 			emit(C06Case{Src: s, Infix: infix, Mask: 15, Undef: true, Events: 0, Binds: []int{1}, NoDump: len(s) > 10000, Origin: "sweep"})
 			emit(C06Case{Src: s, Infix: infix, Mask: 0, Undef: false, Events: 1, Binds: []int{2}, NoDump: len(s) > 10000, Origin: "sweep"})
+		}
+	}
+	// directives in every leading comment line, over struct-literal configs (mask 15: no options map at all)
+	for _, src := range []string{
+		";; note\n;;;; optimize: false\n(and x y)", "; a\n; b\n;;;; reordering: false\n(or x (and y b0))", ";;;; constant_folding: false\n;; note\n;;;; fast_evaluation: false\n(+ 1 2 x)",
+		"\n\n ;;;; optimize:false\n(if b0 1 2)", ";;;; bogus: true\n(and x y)", "; only a comment", ";;;; optimize: false", ";; note\n;;;; optimize: false\nx + 1",
+	} {
+		for _, mask := range []int{15, 0, 6} {
+			for _, infix := range []bool{false, true} {
+				emit(C06Case{Src: src, Infix: infix, Mask: mask, NilMaps: true, Binds: []int{1}, Origin: "sweep-directives-over-literal-configs"})
+				emit(C06Case{Src: src, Infix: infix, Mask: mask, Undef: true, Binds: []int{2}, Origin: "sweep-directives"})
+			}
 		}
 	}
 	// wide and/or programs, alone and nested so that ReduceNesting merges them: the narrow
